@@ -66,7 +66,6 @@ Section WithCrc.
   Proof.
     intros d e r d' H. unfold check_entry in H.
     destruct (e_off e =? 0); [inversion H; apply pref_refl|].
-    destruct (e_size e <? 0)%Z; [inversion H; apply pref_refl|].
     eapply verify_needle_pref; eauto.
   Qed.
 
@@ -100,7 +99,6 @@ Section WithCrc.
   Proof.
     intros f L H. unfold load in H.
     destruct (len (f_dat f) <? SuperBlockSize); [discriminate|].
-    destruct (negb (f_torn f =? 0)); [discriminate|].
     destruct (check_and_fix crc (open_dat (f_dat f)) (f_idx f)) as [[err d] es] eqn:E.
     destruct (check_and_fix_shrinks _ _ _ _ _ E) as [Hp Hi].
     inversion H; subst L; clear H. cbn [l_dat l_idx l_map].
@@ -179,10 +177,9 @@ Section WithCrc.
 
   (* the check of the last index entry of the running volume [st] against [p_dat st ++ T] *)
   Lemma check_last_entry : forall st l' o r T, Inv crc st -> p_recs st = l' ++ [(o, r)] ->
-    (a_tomb r = true -> T = []) ->
     exists D, check_entry crc (open_dat (p_dat st ++ T)) (entry_of o r) = (CNil, D) /\ good_dat st D.
   Proof.
-    intros st l' o r T HI Hrecs Htomb.
+    intros st l' o r T HI Hrecs.
     assert (Hin : In (o, r) (p_recs st)) by (rewrite Hrecs; apply in_or_app; right; left; reflexivity).
     destruct (rec_in_dat crc st o r HI Hin) as [pre0 [post0 [_ [_ [Hal [Hge [Hrok Hpay]]]]]]].
     (* the last record ends the file *)
@@ -199,27 +196,13 @@ Section WithCrc.
     unfold check_entry, entry_of. cbn [e_off e_size e_key].
     destruct (o / 8 =? 0) eqn:E0; [lia|].
     replace (o / 8 * 8) with o by lia.
-    unfold entry_size. destruct (a_tomb r) eqn:Et.
-    - (* tombstone: the last 32 bytes of the file are its record *)
-      rewrite (Htomb eq_refl), app_nil_r. replace (TombstoneFileSize <? 0)%Z with true by reflexivity.
-      exists (open_dat (p_dat st)).
-      split; [|pose proof (good_open st []) as G; rewrite app_nil_r in G; exact G].
-      f_equal. unfold verify_deleted, open_dat. cbn [d_bytes d_fsize].
-      destruct (round_up8_spec (len (p_dat st))) as [_ [_ Hr8]]. rewrite (Hr8 Hdal).
-      assert (Hbs : body_size (a_n r) = 0).
-      { unfold body_size, data_size. rewrite Hpay. reflexivity. }
-      rewrite Hbs in Hle.
-      destruct (len (p_dat st) <? actual_size 0 Ver) eqn:E1; [lia|].
-      replace (len (p_dat st) - actual_size 0 Ver) with (len pre) by lia.
-      rewrite HX. rewrite <- (app_nil_r (encode Ver (a_n r))) at 1.
-      rewrite (read_data_at crc Ver (a_n r) pre [] 0) by (try apply Hrok; auto).
-      destruct Hrok as [_ [Hc [Hi [_ [_ [_ [_ Hns]]]]]]].
-      rewrite <- (app_nil_r (encode Ver (a_n r))).
-      rewrite (read_bytes_enc_empty crc Ver (a_n r) [] Hpay Hc Hi Hns).
-      unfold stripped. cbn [d_n id]. rewrite N.eqb_refl. reflexivity.
-    - (* record with payload: header, size and timestamp are there; anything behind it is cut *)
-      destruct Hpay as [Hne Hck].
-      replace (Z.of_N (body_size (a_n r)) <? 0)%Z with false by lia.
+    (* a tombstone is looked for with Size 0, which is the size its record has *)
+    assert (Hsz : (if (entry_size r <? 0)%Z then 0%Z else entry_size r) = Z.of_N (body_size (a_n r))).
+    { unfold entry_size. destruct (a_tomb r) eqn:Et.
+      - destruct (body_empty (a_n r) Hpay) as [Hb _]. rewrite Hb. reflexivity.
+      - replace (Z.of_N (body_size (a_n r)) <? 0)%Z with false by lia. reflexivity. }
+    rewrite Hsz.
+    - (* header, size and timestamp of the record are there; anything behind it is cut *)
       unfold verify_needle, open_dat. cbn [d_bytes d_fsize].
       set (bs := body_size (a_n r)) in *.
       assert (Hrest : dropN o (p_dat st ++ T) = encode Ver (a_n r) ++ T).
@@ -262,22 +245,20 @@ Section WithCrc.
   Qed.
 
   (* reopening [p_dat st ++ T] with the index of [st] gives back the needle map of [st] *)
-  Lemma load_core : forall st T, Inv crc st ->
-    (forall l' o r, p_recs st = l' ++ [(o, r)] -> a_tomb r = true -> T = []) ->
-    exists D, load crc {| f_dat := p_dat st ++ T; f_idx := p_idx st; f_torn := 0 |}
+  Lemma load_core : forall st T torn, Inv crc st ->
+    exists D, load crc {| f_dat := p_dat st ++ T; f_idx := p_idx st; f_torn := torn |}
               = Loaded {| l_dat := D; l_idx := p_idx st; l_map := p_map st; l_nwod := false |}
               /\ good_dat st D.
   Proof.
-    intros st T HI Htomb. unfold load. cbn [f_dat f_idx f_torn].
+    intros st T torn HI. unfold load. cbn [f_dat f_idx f_torn].
     destruct (len_dat_ge8 crc st HI) as [H8 _].
     destruct (len (p_dat st ++ T) <? SuperBlockSize) eqn:E1; [rewrite len_app in E1; unfold SuperBlockSize in E1; lia|].
-    cbn [N.eqb negb]. change (negb (0 =? 0)) with false. cbv iota.
     destruct (snoc_case _ (p_recs st)) as [Hnil|[l' [[o r] Hsnoc]]].
     - (* empty index: nothing is checked *)
       assert (Hidx : p_idx st = []) by (rewrite (inv_idx crc st HI), Hnil; reflexivity).
       rewrite Hidx. cbn [check_and_fix]. eexists. split; [|apply good_open].
       rewrite (inv_map crc st HI), Hidx. reflexivity.
-    - destruct (check_last_entry st l' o r T HI Hsnoc (Htomb l' o r Hsnoc)) as [D [Hc HD]].
+    - destruct (check_last_entry st l' o r T HI Hsnoc) as [D [Hc HD]].
       assert (Hidx : p_idx st = idx_of l' ++ [entry_of o r]).
       { rewrite (inv_idx crc st HI), Hsnoc, idx_of_app. reflexivity. }
       exists D. split; [|assumption].
